@@ -7,7 +7,7 @@ use crate::refserde::{self, MAGIC};
 use crate::tree::{self, Builder, Enc, Sharing};
 use clvmr::allocator::Allocator;
 use clvmr::serde::{
-    deserialize_2026, deserialize_2026_body_from_stream, node_from_bytes, node_from_bytes_backrefs,
+    deserialize_2026, deserialize_2026_body_from_stream, deserialize_2026_from_stream, node_from_bytes, node_from_bytes_backrefs,
     node_from_bytes_backrefs_old, serialize_2026, serialized_length_serde_2026,
 };
 use serde_json::json;
@@ -80,6 +80,20 @@ fn check_body(body: &[u8], acc: &mut Acc, a: &mut Allocator) {
                     }
                     if pos2 != *n {
                         acc.violation(canon(), format!("stream decoder consumed {pos2}, reference {n}"));
+                    }
+                    // the whole-blob stream entry point: same tree, and the caller's stream is left exactly
+                    // after the blob (the body may be followed by further bytes in this space)
+                    let mut cur4 = Cursor::new(&blob[..]);
+                    match deserialize_2026_from_stream(a, &mut cur4, max_atom_len, strict) {
+                        Ok(n4) => {
+                            if tree::read(a, n4) != *t {
+                                acc.violation(canon(), format!("deserialize_2026_from_stream decoded a different tree than reference {}", t.hex()));
+                            }
+                            if cur4.position() as usize != n + MAGIC.len() {
+                                acc.violation(canon(), format!("deserialize_2026_from_stream left the stream at {}, the blob ends at {}", cur4.position(), n + MAGIC.len()));
+                            }
+                        }
+                        Err(e) => acc.violation(canon(), format!("deserialize_2026_from_stream rejects what deserialize_2026 accepts: {e}")),
                     }
                     match r3 {
                         Ok(l) if l as usize == n + MAGIC.len() => {}
@@ -266,6 +280,28 @@ pub fn run(ctx: &Ctx) -> Report {
                                 o => acc.violation(canon.clone(), format!("serialized_length_serde_2026 {o:?} != {}", blob.len())),
                             }
                         }
+                        // two blobs back to back on one stream: each decode consumes exactly its own blob
+                        {
+                            let mut two = blob.clone();
+                            two.extend_from_slice(&blob);
+                            let mut cur = Cursor::new(&two[..]);
+                            for k in 1..=2u64 {
+                                match deserialize_2026_from_stream(a, &mut cur, 1 << 20, true) {
+                                    Ok(m) => {
+                                        if tree::read_ser(a, m) != ser {
+                                            acc.violation(canon.clone(), format!("stream round trip differs (blob {k} of 2 on one stream)"));
+                                        }
+                                        if cur.position() != k * blob.len() as u64 {
+                                            acc.violation(canon.clone(), format!("deserialize_2026_from_stream consumed up to {} after blob {k} of 2, expected {}", cur.position(), k * blob.len() as u64));
+                                        }
+                                    }
+                                    Err(e) => {
+                                        acc.violation(canon.clone(), format!("deserialize_2026_from_stream fails on blob {k} of 2 on one stream: {e}"));
+                                        break;
+                                    }
+                                }
+                            }
+                        }
                         // with trailing garbage the probe still reports the blob length
                         let mut tr = blob.clone();
                         tr.extend_from_slice(&[0xff, 0x00, 0x81]);
@@ -432,7 +468,7 @@ pub fn run(ctx: &Ctx) -> Report {
     rep.states = rep.acc.get("tree_cases") + rep.acc.get("bodies") + rep.acc.get("token_blobs") + rep.acc.get("token_blobs_overlong");
     rep.transitions = rep.evaluations;
     rep.traces = rep.evaluations;
-    rep.rule = format!("(a) every tree of C17's spaces x sharing x levels {{0,1,u32::MAX}}: strict+lenient round trip, length probe (also with trailing bytes), reference decoder, rejection by classic/backref decoders; (b) every body in BYTES({l1}) and BYTES({l2}, 12-byte alphabet), (c) every token-level blob: {nt} atom-table configurations (0-3 groups, headers +-1,+-2,0,2^20(+1),+-2^55, counts 0..3, atom bytes over {{00,01,80}}, wrong declared group count) x every instruction sequence of length <= {kmax} over {INSTRS:?} x declared count {{k,k+1,k-1}}, plus every single-varint overlong deviation (1 or 2 extra bytes) for sequences <= {okmax}; each body under strict x max_atom_len {{0,1,2,3,2^20}} through deserialize_2026, deserialize_2026_body_from_stream and serialized_length_serde_2026 against a reference decoder written from docs/serde-2026.md (accept/reject, tree, consumed == probe). Non-trivial = tree cases + (body, parameters) combinations that decode.");
+    rep.rule = format!("(a) every tree of C17's spaces x sharing x levels {{0,1,u32::MAX}}: strict+lenient round trip, length probe (also with trailing bytes), two blobs back to back on one stream, reference decoder, rejection by classic/backref decoders; (b) every body in BYTES({l1}) and BYTES({l2}, 12-byte alphabet), (c) every token-level blob: {nt} atom-table configurations (0-3 groups, headers +-1,+-2,0,2^20(+1),+-2^55, counts 0..3, atom bytes over {{00,01,80}}, wrong declared group count) x every instruction sequence of length <= {kmax} over {INSTRS:?} x declared count {{k,k+1,k-1}}, plus every single-varint overlong deviation (1 or 2 extra bytes) for sequences <= {okmax}; each body under strict x max_atom_len {{0,1,2,3,2^20}} through deserialize_2026, deserialize_2026_from_stream (stream position afterwards), deserialize_2026_body_from_stream and serialized_length_serde_2026 against a reference decoder written from docs/serde-2026.md (accept/reject, tree, consumed == probe). Non-trivial = tree cases + (body, parameters) combinations that decode.");
     rep.assumptions.push("reference 2026 decoder in refserde.rs; where docs/serde-2026.md is silent (count==0 rejected, bound checked before count is read) the reference mirrors the implementation".into());
     rep.note("max_atom_len_usize_max", json!("a declared atom length up to max_atom_len is pre-allocated before reading (buf.resize); with max_atom_len=usize::MAX that is caller-selected unbounded allocation and is explored only in the subprocess tier (see DESIGN.md C20)"));
     rep
